@@ -25,6 +25,9 @@ pub fn plan(projects: &[Project], opts: &Opts) -> Vec<Value> {
     let mut cases = vec![];
     for p in projects {
         cases.push(json!({"kind": "write", "project": p.id, "out_fault": {"op": "none"}, "codegen": true}));
+        if !crate::corpus::VARIANT.is_empty() {
+            continue; // other code-generator configurations: only the generated-code oracles differ
+        }
         for op in STRUCT_OPS {
             cases.push(json!({"kind": "write", "project": p.id, "out_fault": {"op": op}}));
         }
@@ -83,6 +86,8 @@ pub fn judge(case: &Value, reply: &Value) -> Vec<Violation> {
             "literal index does not point at its own text"
         } else if p.contains("expects") || p.contains("count") {
             "string count differs from the table length"
+        } else if p.contains("declares a string table type") {
+            "generated code expects a table size no locale has"
         } else if p.contains("baked") || p.contains("generated code") {
             "baked table differs from the parser table"
         } else {
@@ -136,6 +141,9 @@ pub fn account(
     if let Some(n) = reply["baked"]["index_reads"].as_u64() {
         *probes.entry("generated_index_reads_checked".into()).or_default() += n;
         *probes.entry("baked_tables_compared".into()).or_default() += reply["baked"]["tables"].as_u64().unwrap_or(0);
+    }
+    if let Some(n) = reply["baked"]["table_types_checked"].as_u64() {
+        *probes.entry("generated_table_types_checked".into()).or_default() += n;
     }
     // every write case is non-trivial: it compares real files with real tables
     true
